@@ -29,6 +29,7 @@ import (
 	admv1 "k8s.io/api/admission/v1"
 	metav1 "k8s.io/apimachinery/pkg/apis/meta/v1"
 	"k8s.io/apimachinery/pkg/apis/meta/v1/unstructured"
+	"k8s.io/client-go/dynamic"
 
 	"github.com/flant/kube-client/fake"
 	"github.com/flant/shell-operator/pkg/hook"
@@ -69,6 +70,13 @@ type Req struct {
 type Input struct {
 	Hooks []HookSpec `json:"hooks"`
 	Reqs  []Req      `json:"reqs"`
+	// Conc: the requests of the case are in flight at the same time (conc.go); their uids are distinct.
+	// Sched: the order in which the held hook processes are moved on - request UIDS (not positions, so
+	// that a case from which requests have been removed is still meaningful; unknown uids are skipped);
+	// each occurrence lets that request run to its next hold point (hook process started / has written
+	// its files) or to its end.  Afterwards every request is let run to its end, in order.
+	Conc  bool  `json:"conc,omitempty"`
+	Sched []int `json:"sched,omitempty"`
 }
 
 type Reg struct {
@@ -103,10 +111,19 @@ type ReqObs struct {
 	// cluster / the marker metric of this request is in the hooks' metric storage
 	KApplied bool `json:"k_applied,omitempty"`
 	MApplied bool `json:"m_applied,omitempty"`
+	// concurrent class: what the hook process found in its four output files when it started
+	// ("" no process ran, "empty", "nonempty", "missing") and the files it was given
+	Initial string   `json:"initial,omitempty"`
+	Paths   []string `json:"paths,omitempty"`
 }
 type Obs struct {
 	Regs []Reg    `json:"regs"`
 	Reqs []ReqObs `json:"reqs"`
+	// concurrent class: the moves as executed (positions of the requests), the largest number of hook
+	// processes open at once, and temp files given to two runs that were open at the same time
+	Moves   []int    `json:"moves,omitempty"`
+	MaxOpen int      `json:"max_open,omitempty"`
+	Shared  []string `json:"shared_paths,omitempty"`
 	Err  string   `json:"err,omitempty"`
 	// the hooks' configuration was refused by the loader (invalid generated input)
 	Rejected string `json:"rejected,omitempty"`
@@ -118,14 +135,36 @@ const hookScript = `#!/bin/bash
 S='%s'
 H='%s'
 if [ "$1" = "--config" ]; then cat "$S/$H.config"; exit 0; fi
-cp "$BINDING_CONTEXT_PATH" "$S/ctx"
-echo "$H" >> "$S/who"
-[ -f "$S/resp" ] && cp "$S/resp" "$VALIDATING_RESPONSE_PATH"
-[ -f "$S/kpatch" ] && cp "$S/kpatch" "$KUBERNETES_PATCH_PATH"
-[ -f "$S/metrics" ] && cp "$S/metrics" "$METRICS_PATH"
-[ -f "$S/conv" ] && cp "$S/conv" "$CONVERSION_RESPONSE_PATH"
+# concurrent class: one state directory per request, found by the uid in the binding context
+D="$S"
+if [ -d "$S/conc" ]; then
+  U=$(grep -o '"uid": *"uid-[0-9]*"' "$BINDING_CONTEXT_PATH" | head -n 1 | grep -o '[0-9]*')
+  D="$S/conc/q$U"
+fi
+cp "$BINDING_CONTEXT_PATH" "$D/ctx"
+echo "$H" >> "$D/who"
+if [ -p "$D/ev" ]; then
+  # hold point 1: started.  Report the files given and what they hold, wait to be moved on
+  ini=empty
+  for f in "$VALIDATING_RESPONSE_PATH" "$KUBERNETES_PATCH_PATH" "$METRICS_PATH" "$CONVERSION_RESPONSE_PATH"; do
+    [ -s "$f" ] && ini=nonempty
+    [ -f "$f" ] || ini=missing
+  done
+  printf '%%s\n' "$BINDING_CONTEXT_PATH" "$METRICS_PATH" "$VALIDATING_RESPONSE_PATH" "$CONVERSION_RESPONSE_PATH" "$KUBERNETES_PATCH_PATH" > "$D/paths"
+  echo "started $ini" > "$D/ev"
+  read -r x < "$D/go"
+fi
+[ -f "$D/resp" ] && cp "$D/resp" "$VALIDATING_RESPONSE_PATH"
+[ -f "$D/kpatch" ] && cp "$D/kpatch" "$KUBERNETES_PATCH_PATH"
+[ -f "$D/metrics" ] && cp "$D/metrics" "$METRICS_PATH"
+[ -f "$D/conv" ] && cp "$D/conv" "$CONVERSION_RESPONSE_PATH"
+if [ -p "$D/ev" ]; then
+  # hold point 2: written
+  echo "written" > "$D/ev"
+  read -r x < "$D/go"
+fi
 e=1
-[ -f "$S/exit" ] && read e < "$S/exit"
+[ -f "$D/exit" ] && read e < "$D/exit"
 # a negative number: the process dies by that signal (no exit status at all)
 if [ "$e" -lt 0 ]; then kill -$((-e)) $$; sleep 5; fi
 exit $e
@@ -564,148 +603,200 @@ func Run(in Input) (o Obs) {
 		}
 	}
 
-	for qi, q := range in.Reqs {
-		var ro ReqObs
-		base := Reg{Path: "/hooks/none", Name: "none"}
-		if len(o.Regs) > 0 {
-			base = o.Regs[((q.Binding%len(o.Regs))+len(o.Regs))%len(o.Regs)]
-		}
-		id := strings.TrimPrefix(base.Path, "/hooks/")
-		switch q.PathKind {
-		case "reg":
-			ro.Path = base.Path
-		case "unknownid":
-			ro.Path = "/hooks/no-such-webhook-example-com"
-		case "unknownconf":
-			ro.Path = "/other/" + id
-		case "empty":
-			ro.Path = "/"
-		case "extra":
-			ro.Path = base.Path + "/extra"
-		case "doubleslash":
-			ro.Path = "//hooks//" + id
-		case "trailing":
-			ro.Path = base.Path + "/"
-		case "confonly":
-			ro.Path = "/hooks"
-		case "idonly":
-			ro.Path = "/" + id
-		default: // rawname: the binding name as written (not made URL safe)
-			ro.Path = "/hooks/" + base.Name
-		}
-		for _, f := range []string{"ctx", "who", "resp", "exit", "kpatch", "metrics", "conv"} {
-			_ = os.Remove(filepath.Join(state, f))
-		}
-		if fb := fileBytes(q); fb != "" {
-			_ = os.WriteFile(filepath.Join(state, "resp"), []byte(fb), 0o644)
-		}
-		kText, mText, cText, _, _, unknown := sideFiles(q, qi)
-		if unknown != "" {
-			o.Err = "unknown side file variant " + unknown
-			return
-		}
-		for name, text := range map[string]string{"kpatch": kText, "metrics": mText, "conv": cText} {
-			if text != "" {
-				_ = os.WriteFile(filepath.Join(state, name), []byte(text), 0o644)
+	env := &runEnv{in: in, o: &o, state: state, router: router, cms: cms, hookMetrics: hookMetrics}
+	if in.Conc {
+		env.runConcurrent()
+	} else {
+		for qi, q := range in.Reqs {
+			ro := ReqObs{Path: env.pathOf(q)}
+			for _, f := range []string{"ctx", "who", "resp", "exit", "kpatch", "metrics", "conv"} {
+				_ = os.Remove(filepath.Join(state, f))
 			}
-		}
-		_ = os.WriteFile(filepath.Join(state, "exit"), []byte(strconv.Itoa(q.Exit)+"\n"), 0o644)
-
-		body, ctype := bodyBytes(q)
-		rq := httptest.NewRequest(http.MethodPost, "http://verif.local"+ro.Path, bytes.NewReader([]byte(body)))
-		rq.Header.Set("Content-Type", ctype)
-		rec := httptest.NewRecorder()
-		router.ServeHTTP(rec, rq)
-		ro.Status = rec.Code
-		if rec.Code == http.StatusOK {
-			var review admv1.AdmissionReview
-			if err := json.Unmarshal(rec.Body.Bytes(), &review); err != nil || review.Response == nil {
-				ro.Status = 599
-				ro.Note = "undecodable answer: " + rec.Body.String()
-			} else {
-				r := review.Response
-				rv := &Review{Uid: numSuffix(string(r.UID), "uid-"), Allowed: r.Allowed}
-				if r.Result != nil {
-					rv.Code = int(r.Result.Code)
-					rv.Msg, rv.M = classify(r.Result.Message)
-					rv.Raw = r.Result.Message
-				} else {
-					rv.Msg = "none"
-				}
-				for _, w := range r.Warnings {
-					rv.Warn = append(rv.Warn, numSuffix(w, "w-"))
-				}
-				if len(r.Patch) > 0 {
-					rv.Patch = 9999
-					for n := 1; n < 50; n++ {
-						if string(r.Patch) == patchBytes(n) {
-							rv.Patch = n
-						}
-					}
-				}
-				if r.PatchType != nil {
-					rv.PatchType = true
-					if *r.PatchType != admv1.PatchTypeJSONPatch {
-						ro.Note = "patchType is " + string(*r.PatchType)
-						rv.Patch = 9998
-					}
-				}
-				ro.Review = rv
+			if !env.scriptHook(state, q, qi) {
+				return
 			}
+			rec := httptest.NewRecorder()
+			router.ServeHTTP(rec, env.request(q, ro.Path))
+			parseAnswer(rec, &ro)
+			readRan(state, q, &ro)
+			env.sideEffects(qi, &ro)
+			o.Reqs = append(o.Reqs, ro)
 		}
-		// which hook process ran, for which binding
-		if who, err := os.ReadFile(filepath.Join(state, "who")); err == nil {
-			lines := strings.Fields(string(who))
-			ran := &Ran{Hook: 9999}
-			if len(lines) == 1 {
-				ran.Hook = numSuffix(strings.TrimSuffix(lines[0], ".sh"), "h")
-			} else {
-				ro.Note += fmt.Sprintf(" %d hook processes ran: %v", len(lines), lines)
-			}
-			var ctxs []struct {
-				Binding string `json:"binding"`
-				Type    string `json:"type"`
-				Review  struct {
-					Request struct {
-						UID string `json:"uid"`
-					} `json:"request"`
-				} `json:"review"`
-			}
-			b, _ := os.ReadFile(filepath.Join(state, "ctx"))
-			if err := json.Unmarshal(b, &ctxs); err != nil || len(ctxs) != 1 {
-				ran.Name = "?"
-				ro.Note += " unexpected binding context: " + string(b)
-			} else {
-				ran.Name = ctxs[0].Binding
-				ran.Mut = ctxs[0].Type == "Mutating"
-				if ctxs[0].Type != "Mutating" && ctxs[0].Type != "Validating" {
-					ran.Name = "?type=" + ctxs[0].Type
-				}
-				if ctxs[0].Review.Request.UID != fmt.Sprintf("uid-%d", q.Uid) {
-					ran.Name = "?uid=" + ctxs[0].Review.Request.UID
-				}
-			}
-			ro.Ran = ran
-		}
-		// side effects: this request's marker object in the cluster, marker metric in the storage
-		if _, err := cms.Get(context.TODO(), markerCM(qi), metav1.GetOptions{}); err == nil {
-			ro.KApplied = true
-		}
-		if fams, err := hookMetrics.Gatherer.Gather(); err != nil {
-			ro.Note += " cannot gather the hooks' metrics: " + err.Error()
-		} else {
-			for _, f := range fams {
-				if f.GetName() == markerMetric(qi) || strings.HasSuffix(f.GetName(), "_"+markerMetric(qi)) {
-					ro.MApplied = true
-				}
-			}
-		}
-		o.Reqs = append(o.Reqs, ro)
+	}
+	if o.Err != "" {
+		return
 	}
 	if left, _ := os.ReadDir(tmp); len(left) > 0 {
 		o.Err = fmt.Sprintf("%d temporary files left behind", len(left))
 	}
 	return
+}
+
+
+// ---------------------------------------------------------------- pieces of one exchange
+
+type runEnv struct {
+	in          Input
+	o           *Obs
+	state       string
+	router      http.Handler
+	cms         dynamic.ResourceInterface
+	hookMetrics *metricstorage.MetricStorage
+}
+
+// the URL path of a request, derived from the binding it names
+func (env *runEnv) pathOf(q Req) string {
+	o := env.o
+	base := Reg{Path: "/hooks/none", Name: "none"}
+	if len(o.Regs) > 0 {
+		base = o.Regs[((q.Binding%len(o.Regs))+len(o.Regs))%len(o.Regs)]
+	}
+	id := strings.TrimPrefix(base.Path, "/hooks/")
+	switch q.PathKind {
+	case "reg":
+		return base.Path
+	case "unknownid":
+		return "/hooks/no-such-webhook-example-com"
+	case "unknownconf":
+		return "/other/" + id
+	case "empty":
+		return "/"
+	case "extra":
+		return base.Path + "/extra"
+	case "doubleslash":
+		return "//hooks//" + id
+	case "trailing":
+		return base.Path + "/"
+	case "confonly":
+		return "/hooks"
+	case "idonly":
+		return "/" + id
+	}
+	// rawname: the binding name as written (not made URL safe)
+	return "/hooks/" + base.Name
+}
+
+// scriptHook writes into dir what the hook process run for request q (number qi of the case) is to do
+func (env *runEnv) scriptHook(dir string, q Req, qi int) bool {
+	if fb := fileBytes(q); fb != "" {
+		_ = os.WriteFile(filepath.Join(dir, "resp"), []byte(fb), 0o644)
+	}
+	kText, mText, cText, _, _, unknown := sideFiles(q, qi)
+	if unknown != "" {
+		env.o.Err = "unknown side file variant " + unknown
+		return false
+	}
+	for name, text := range map[string]string{"kpatch": kText, "metrics": mText, "conv": cText} {
+		if text != "" {
+			_ = os.WriteFile(filepath.Join(dir, name), []byte(text), 0o644)
+		}
+	}
+	_ = os.WriteFile(filepath.Join(dir, "exit"), []byte(strconv.Itoa(q.Exit)+"\n"), 0o644)
+	return true
+}
+
+func (env *runEnv) request(q Req, path string) *http.Request {
+	body, ctype := bodyBytes(q)
+	rq := httptest.NewRequest(http.MethodPost, "http://verif.local"+path, bytes.NewReader([]byte(body)))
+	rq.Header.Set("Content-Type", ctype)
+	return rq
+}
+
+// parseAnswer: the HTTP status and, for a 200, the AdmissionResponse in the vocabulary of the model
+func parseAnswer(rec *httptest.ResponseRecorder, ro *ReqObs) {
+	ro.Status = rec.Code
+	if rec.Code != http.StatusOK {
+		return
+	}
+	var review admv1.AdmissionReview
+	if err := json.Unmarshal(rec.Body.Bytes(), &review); err != nil || review.Response == nil {
+		ro.Status = 599
+		ro.Note = "undecodable answer: " + rec.Body.String()
+		return
+	}
+	r := review.Response
+	rv := &Review{Uid: numSuffix(string(r.UID), "uid-"), Allowed: r.Allowed}
+	if r.Result != nil {
+		rv.Code = int(r.Result.Code)
+		rv.Msg, rv.M = classify(r.Result.Message)
+		rv.Raw = r.Result.Message
+	} else {
+		rv.Msg = "none"
+	}
+	for _, w := range r.Warnings {
+		rv.Warn = append(rv.Warn, numSuffix(w, "w-"))
+	}
+	if len(r.Patch) > 0 {
+		rv.Patch = 9999
+		for n := 1; n < 50; n++ {
+			if string(r.Patch) == patchBytes(n) {
+				rv.Patch = n
+			}
+		}
+	}
+	if r.PatchType != nil {
+		rv.PatchType = true
+		if *r.PatchType != admv1.PatchTypeJSONPatch {
+			ro.Note = "patchType is " + string(*r.PatchType)
+			rv.Patch = 9998
+		}
+	}
+	ro.Review = rv
+}
+
+// readRan: which hook process ran, for which binding (from what the process left in dir)
+func readRan(dir string, q Req, ro *ReqObs) {
+	who, err := os.ReadFile(filepath.Join(dir, "who"))
+	if err != nil {
+		return
+	}
+	lines := strings.Fields(string(who))
+	ran := &Ran{Hook: 9999}
+	if len(lines) == 1 {
+		ran.Hook = numSuffix(strings.TrimSuffix(lines[0], ".sh"), "h")
+	} else {
+		ro.Note += fmt.Sprintf(" %d hook processes ran: %v", len(lines), lines)
+	}
+	var ctxs []struct {
+		Binding string `json:"binding"`
+		Type    string `json:"type"`
+		Review  struct {
+			Request struct {
+				UID string `json:"uid"`
+			} `json:"request"`
+		} `json:"review"`
+	}
+	b, _ := os.ReadFile(filepath.Join(dir, "ctx"))
+	if err := json.Unmarshal(b, &ctxs); err != nil || len(ctxs) != 1 {
+		ran.Name = "?"
+		ro.Note += " unexpected binding context: " + string(b)
+	} else {
+		ran.Name = ctxs[0].Binding
+		ran.Mut = ctxs[0].Type == "Mutating"
+		if ctxs[0].Type != "Mutating" && ctxs[0].Type != "Validating" {
+			ran.Name = "?type=" + ctxs[0].Type
+		}
+		if ctxs[0].Review.Request.UID != fmt.Sprintf("uid-%d", q.Uid) {
+			ran.Name = "?uid=" + ctxs[0].Review.Request.UID
+		}
+	}
+	ro.Ran = ran
+}
+
+// sideEffects: the marker object of request qi in the cluster, its marker metric in the storage
+func (env *runEnv) sideEffects(qi int, ro *ReqObs) {
+	if _, err := env.cms.Get(context.TODO(), markerCM(qi), metav1.GetOptions{}); err == nil {
+		ro.KApplied = true
+	}
+	if fams, err := env.hookMetrics.Gatherer.Gather(); err != nil {
+		ro.Note += " cannot gather the hooks' metrics: " + err.Error()
+	} else {
+		for _, f := range fams {
+			if f.GetName() == markerMetric(qi) || strings.HasSuffix(f.GetName(), "_"+markerMetric(qi)) {
+				ro.MApplied = true
+			}
+		}
+	}
 }
 
 // ---------------------------------------------------------------- Render
@@ -763,6 +854,9 @@ func Render(in Input, obs *Obs, crash string) core.Case {
 		c.Key = fmt.Sprintf("crash %v", in)
 		c.Tags = append(c.Tags, "crash")
 		return c
+	}
+	if in.Conc {
+		return renderConc(in, obs, c)
 	}
 	hooks := core.CoqList(in.Hooks, func(h HookSpec) string {
 		return fmt.Sprintf("mkHook %s %s", core.CoqList(h.Val, core.CoqBytes), core.CoqList(h.Mut, core.CoqBytes))
@@ -1187,6 +1281,9 @@ func Gen(r *core.Rng, tier string) ([]core.In[Input], bool) {
 	for _, c := range PostExitCorpus() {
 		ins = append(ins, core.In[Input]{Input: c, Stream: "corpus"})
 	}
+	for _, c := range ConcCorpus() {
+		ins = append(ins, core.In[Input]{Input: c, Stream: "corpus"})
+	}
 	// the product paths x exit x file is small: it runs in every tier
 	for _, c := range exhaustive() {
 		ins = append(ins, core.In[Input]{Input: c, Stream: "exhaustive"})
@@ -1234,11 +1331,13 @@ func Gen(r *core.Rng, tier string) ([]core.In[Input], bool) {
 		}
 		ins = append(ins, core.In[Input]{Input: Input{Hooks: hs, Reqs: reqs}, Stream: stream})
 	}
+	// requests that overlap in time (conc.go); generated last so that the streams above are what they were
+	ins = append(ins, genConc(g, tier)...)
 	return ins, false
 }
 
 var Driver = core.Driver[Input, Obs]{
 	Spec: core.Spec{Property: "C14", Imports: []string{"C14_Model", "C14_Spec", "C14_Corr"}, Corr: "C14_Corr", Triggers: nil, ShrinkKey: "reqs",
-		Rule: "one case = 1-3 real hooks (bash stubs) with kubernetesValidating/kubernetesMutating bindings loaded by the real hook.Manager, the real initValidatingWebhookManager event handler on the real admission router (httptest, no listener), and a list of AdmissionReview posts, each with a scripted hook exit status, response file and the other files shell-operator processes after the exit of the hook process ($KUBERNETES_PATCH_PATH on a fake cluster, $METRICS_PATH, $CONVERSION_RESPONSE_PATH: empty / processed without error / failing the run at parse time / failing it when applied); observed: marker Kubernetes object applied, marker metric applied, registered path of every binding, HTTP status / AdmissionResponse (uid, allowed, code, message, warnings, patch, patchType), which hook process ran for which binding. Streams: corpus; exhaustive (every tier): 12 path kinds {registered validating, registered mutating, unknown webhook id, unknown configuration id, empty, extra segment, doubled slashes, trailing slash, configuration only, id only, un-normalised name} x exit {0,1} x 28 response files {empty, allow, deny(+message), allow+warnings, allow+patch, all fields, truncated x2, wrong types x6, non-JSON x2, null, {}, unknown members, empty patch, object followed by other data x5, object followed by white space} + every request-less / malformed body / wrong content type; random (distinct webhook ids); colliding-ids (binding names with equal SafeURLString); trailing-data (a complete response object followed by other data — the repaired defect F19); exhaustive-post-exit (every tier): every variant of the three side files alone (19 Kubernetes-operation files, 20 metric files, 6 conversion responses) + 12 combinations showing the order of the steps x 8 (exit, response file) on a validating binding, x 2 (allow with patch and warnings, deny) on a mutating one; post-exit-failure (every 4th random case: exit 0 + valid verdict + a failing step after the exit); a third of all random requests carry side files. non-trivial = at least 2 requests, one answered allowed and one hook run. distinct = distinct input text"},
-	Gen: Gen, Run: Run, Render: Render, PerShard: 30, Workers: 8, CaseTimout: 60 * time.Second,
+		Rule: "one case = 1-3 real hooks (bash stubs) with kubernetesValidating/kubernetesMutating bindings loaded by the real hook.Manager, the real initValidatingWebhookManager event handler on the real admission router (httptest, no listener), and a list of AdmissionReview posts, each with a scripted hook exit status, response file and the other files shell-operator processes after the exit of the hook process ($KUBERNETES_PATCH_PATH on a fake cluster, $METRICS_PATH, $CONVERSION_RESPONSE_PATH: empty / processed without error / failing the run at parse time / failing it when applied); observed: marker Kubernetes object applied, marker metric applied, registered path of every binding, HTTP status / AdmissionResponse (uid, allowed, code, message, warnings, patch, patchType), which hook process ran for which binding. Streams: corpus; exhaustive (every tier): 12 path kinds {registered validating, registered mutating, unknown webhook id, unknown configuration id, empty, extra segment, doubled slashes, trailing slash, configuration only, id only, un-normalised name} x exit {0,1} x 28 response files {empty, allow, deny(+message), allow+warnings, allow+patch, all fields, truncated x2, wrong types x6, non-JSON x2, null, {}, unknown members, empty patch, object followed by other data x5, object followed by white space} + every request-less / malformed body / wrong content type; random (distinct webhook ids); colliding-ids (binding names with equal SafeURLString); trailing-data (a complete response object followed by other data — the repaired defect F19); exhaustive-post-exit (every tier): every variant of the three side files alone (19 Kubernetes-operation files, 20 metric files, 6 conversion responses) + 12 combinations showing the order of the steps x 8 (exit, response file) on a validating binding, x 2 (allow with patch and warnings, deny) on a mutating one; post-exit-failure (every 4th random case: exit 0 + valid verdict + a failing step after the exit); a third of all random requests carry side files. CONCURRENT class (conc.go): 2-6 reviews posted to the router from goroutines of their own, their scripted hook processes held on FIFOs at two points (started / has written its files) and moved on in the order of the case's schedule, every request observed as above plus what its hook process found in its output files at start; streams concurrent-exhaustive-pairs (every tier: all 20 orders of {A starts, A writes, A ends, B starts, B writes, B ends} x pairs of runs differing in verdict, message, warnings, patch, exit status and in the other files they hand back, on one binding / a validating and a mutating binding of one hook / two hooks: 5 pairs quick, 11 thorough) and concurrent-random (1-3 hooks, 2-6 requests of every kind incl. unknown paths, malformed bodies, failing exits, side files; random interleaving, sometimes cut short; two thirds biased to several requests for one binding). non-trivial = at least 2 requests, one answered allowed and one hook run (concurrent class: at least two hook processes open at the same time). distinct = distinct input text"},
+	Gen: Gen, Run: Run, Render: Render, PerShard: 30, Workers: 8, CaseTimout: 300 * time.Second,
 }
